@@ -28,7 +28,7 @@ import time as _time
 import warnings
 
 from .core import exc_class, hx, unhx
-from .gitobj_common import gen_bytes as _gen_bytes_plain, gen_bytes_wide
+from .gitobj_common import gen_bytes as _gen_bytes_plain, gen_bytes_wide, splice_token
 
 
 def gen_bytes(rng):
@@ -77,6 +77,11 @@ RULE = ("ExtID: type strings (plain, empty, with space / newline, non-ASCII = re
         "sha1(url) computed with hashlib), to_dict -> from_dict without the id, evolve() from an object of another second / another "
         "version, compute_hash() / check() / the id passed explicitly, the same instant carried by a zoneinfo.ZoneInfo tzinfo "
         "(DST zones, fold) and by a datetime subclass, str / bytes subclasses as field values. "
+        "SOURCE TOKENS: about 10 % of the text / byte values (authority url, fetcher name / version, format, origin, path, "
+        "metadata, extid_type, extid, payload_type, payload) get a string / bytes literal harvested with ast from swh/model/*.py of "
+        "the tree under test, or a well-known neighbour ('swh:', 'https://', 'refs/tags/' ...), as prefix / suffix / infix / whole "
+        "value; an origin that thereby starts with 'swh:' is either kept as the one legitimate refusal or turned into a near miss "
+        "(' swh:', 'Swh:', 'swh;', 'swswh:' ...) that must stay accepted. "
         "non-trivial = at least one optional / context line; distinct = distinct case")
 TRUSTED = ["Python datetime arithmetic (aware datetime -> exact integer microseconds since the epoch, utcoffset) used to abstract a "
            "datetime as (epoch_us, offset_us)",
@@ -278,6 +283,19 @@ def gen_word(rng):
                        "a\rb", "\r\n", "x\x0by", "\u2028", "\t", "v\x00"])
 
 
+SPLICE_P = 0.1
+
+
+def splice_txt(rng, v):
+    """about one text value in ten gets a literal harvested from the source under test (or a well-known neighbour:
+    'swh:', 'https://', 'refs/tags/' ...) as prefix / suffix / infix / whole"""
+    return splice_token(rng, v, "str") if rng.random() < SPLICE_P else v
+
+
+def splice_hex(rng, h):
+    return splice_token(rng, bytes.fromhex(h), "bytes").hex() if rng.random() < SPLICE_P else h
+
+
 def gen_id(rng):
     return bytes(rng.randrange(256) for _ in range(20)).hex()
 
@@ -357,6 +375,25 @@ def gen_emd(rng, k):
                 f = rng.choice(fs)
                 c[f] = [rng.choice([x for x in CORE if x != SWHID_CTX[f]]), gen_id(rng)]
                 c["bad"] = bad
+    # literals of the source under test spliced into the values (expectations unchanged)
+    before = [c[f] for f in ("url", "name", "version", "format", "metadata", "origin", "path")]
+    for f in ("url", "name", "version", "format"):
+        c[f] = splice_txt(rng, c[f])
+    c["metadata"] = splice_hex(rng, c["metadata"])
+    if c["path"] is not None:
+        c["path"] = splice_hex(rng, c["path"])
+    if c["origin"] is not None and c["bad"] != "swh_origin":
+        o = splice_txt(rng, c["origin"])
+        if o.startswith("swh:"):
+            if c["bad"] is None and rng.random() < 0.5:
+                c["bad"] = "swh_origin"         # the one legitimate refusal: an origin that starts with 'swh:'
+            else:                               # near misses stay accepted
+                o = rng.choice([" " + o, "S" + o[1:], "swh" + o[4:], "sw" + o, o[:3] + ";" + o[4:]])
+                if o.startswith("swh:"):
+                    o = "x" + o
+        c["origin"] = o
+    if before != [c[f] for f in ("url", "name", "version", "format", "metadata", "origin", "path")]:
+        c["spliced"] = True
     c["tz"] = TZ_POOL[k % len(TZ_POOL)]
     c["tz2"] = TZ_POOL[(k // 4 * 7 + 3) % len(TZ_POOL)] if k % 4 == 1 else None
     us = gen_instant(rng)
@@ -404,10 +441,14 @@ def gen_extid(rng, k):
     pm = [0, 1, 1, 0, 2, 3][k % 6]      # payload mode: none, both, half-type, half-payload
     ptype = rng.choice(["disk-manifest", "", "p t", "n\nl", "sha1_git", "é", "c\rr", "l\r\n", "\x0c"]) if pm in (1, 2) else None
     payload = (bytes(rng.randrange(256) for _ in range(20)) if rng.random() < 0.6 else gen_bytes(rng)).hex() if pm in (1, 3) else None
+    if ptype is not None:
+        ptype = splice_txt(rng, ptype)
+    if payload is not None:
+        payload = splice_hex(rng, payload)
     return {"kind": "extid",
-            "type": rng.choice(["hg-nodeid", "", "a b", "with\nnewline", "é", "tyépe", "nar-sha256", "x\n", " t", "checksum-sha512",
-                                "cr\rlf", "a\r\nb", "v\x0bt\x0c", "t\tab", "n\x00ul"]),
-            "extid": gen_bytes(rng).hex(), "ttype": CORE[(k // 6) % 5], "tid": gen_id(rng),
+            "type": splice_txt(rng, rng.choice(["hg-nodeid", "", "a b", "with\nnewline", "é", "tyépe", "nar-sha256", "x\n", " t",
+                                                "checksum-sha512", "cr\rlf", "a\r\nb", "v\x0bt\x0c", "t\tab", "n\x00ul"])),
+            "extid": splice_hex(rng, gen_bytes(rng).hex()), "ttype": CORE[(k // 6) % 5], "tid": gen_id(rng),
             "version": rng.choice([0, 0, 1, -1, 2**70, -2**70, rng.randrange(-1000, 1000)]),
             "ptype": ptype, "payload": payload, "tz": TZ_POOL[(k * 5 + 1) % len(TZ_POOL)], "routes": list(EXTID_ROUTES)}
 
@@ -451,6 +492,8 @@ def classify(c):
         ks.append("emd:no-offset-datetime:" + naive_kind(c) + (":rejected-expected" if naive_flow(c) else ":offset-given"))
     if c.get("range_end"):
         ks.append("emd:date-range-" + c["range_end"])
+    if c.get("spliced"):
+        ks.append("emd:source-token-spliced")
     texts = [c["url"], c["name"], c["version"], c["format"], c["origin"] or ""]
     if any("\r" in t for t in texts):
         ks.append("emd:text-with-cr")
